@@ -94,6 +94,18 @@ def dispatch(eng, func, args, kwargs):
         # arithmetic would otherwise break exact identities by one ulp
         if any(t.layout == torch.strided and t.dtype in FLOAT_DT and t.numel() <= 4096 for t in tens):
             anysym = True
+    if anysym and eng.range_mode == "fork" and name in ("index", "_unsafe_index", "gather", "index_select", "take_along_dim"):
+        # the real kernel's bounds check is a data-dependent branch: decide it BEFORE the kernel runs on the witness
+        b0 = bind(func, args, kwargs)
+        self_t = b0["self"]
+        if name in ("index", "_unsafe_index"):
+            for d, ix in enumerate(b0["indices"]):
+                if isinstance(ix, torch.Tensor) and eng.has(ix) and ix.dtype != torch.bool:
+                    range_guard(eng, eng.view(ix).reshape(-1), self_t.shape[d], True, name)
+        else:
+            ix = b0["index"]
+            if isinstance(ix, torch.Tensor) and eng.has(ix):
+                range_guard(eng, eng.view(ix).reshape(-1), self_t.shape[b0["dim"] % max(self_t.dim(), 1)], False, name)
     if anysym and func._schema.is_mutable and name not in METADATA_INPLACE:
         # an in-place / out= op is about to overwrite its destination: a still-concrete destination must be lifted
         # BEFORE the real kernel runs, otherwise its pre-op content (needed by e.g. add_) is gone
